@@ -256,6 +256,26 @@ func (m *Machine) Probe(enabled func(*Sim) []string, depth int) {
 	m.owner = nil
 }
 
+// ProbeSafe is Probe for harnesses whose code under test may panic on the probe path (a seeded
+// defect): the panic is swallowed here - the search meets the same operations inside its guarded
+// Apply and reports it - and the machine starts again from a fresh simulation. It returns the panic
+// value ("" if none).
+func (m *Machine) ProbeSafe(enabled func(*Sim) []string, depth int) (crash string) {
+	defer func() {
+		if r := recover(); r != nil {
+			crash = fmt.Sprint(r)
+			m.owner = nil
+			m.cache, m.fifo = map[string]*SimState{}, nil
+			m.live = m.fresh() // the old simulation is abandoned in whatever state the panic left it
+			if !m.noCache {
+				m.put("", m.live.Save())
+			}
+		}
+	}()
+	m.Probe(enabled, depth)
+	return ""
+}
+
 // Checkpoint saves the state after the whole history (if it consists of table contents only) so
 // that successors can be computed by restore + one operation. Call it for states that are about to
 // be expanded.
